@@ -40,7 +40,7 @@ VARIABLES now, cfg,    \* cfg: [sd, spe, np, gen]  slot duration, slots per epoc
 vars == <<now, cfg, st, status, gauge, ncr, bnpc, curr, prev, epoch, nextSlot, nextMin, pend, busy, busyUntil, ans, waiting,
           conn, bn, pc, qhist, rolls, acc, evalIn, lastEval, evals>>
 envv == <<conn, bn, pc>>
-hist == <<qhist, rolls, acc, evalIn, lastEval, evals>>
+ghost == <<qhist, rolls, acc, evalIn, lastEval, evals>>
 
 Thr == (2 * cfg.np + 2) \div 3                       \* cluster.Threshold
 Quorum == conn >= Thr - 1                            \* "excluding self"
@@ -84,9 +84,9 @@ Start(genok, specok) ==
 
 \* the tickers (channel capacity 1: a tick that finds the channel full is dropped)
 FireSlot == /\ st = "live" /\ now = nextSlot /\ pend' = pend \cup {"slot"} /\ nextSlot' = nextSlot + cfg.sd
-            /\ UNCHANGED <<now, cfg, st, status, gauge, ncr, bnpc, curr, prev, epoch, nextMin, busy, busyUntil, ans, waiting, envv, hist>>
+            /\ UNCHANGED <<now, cfg, st, status, gauge, ncr, bnpc, curr, prev, epoch, nextMin, busy, busyUntil, ans, waiting, envv, ghost>>
 FireMin == /\ st = "live" /\ now = nextMin /\ pend' = pend \cup {"min"} /\ nextMin' = nextMin + M
-           /\ UNCHANGED <<now, cfg, st, status, gauge, ncr, bnpc, curr, prev, epoch, nextSlot, busy, busyUntil, ans, waiting, envv, hist>>
+           /\ UNCHANGED <<now, cfg, st, status, gauge, ncr, bnpc, curr, prev, epoch, nextSlot, busy, busyUntil, ans, waiting, envv, ghost>>
 
 InSelect == st = "live" /\ ~busy
 
@@ -117,11 +117,11 @@ SlotEnd ==
 RecvMin ==
   /\ InSelect /\ "min" \in pend /\ pend' = pend \ {"min"}
   /\ bnpc' = IF pc.err THEN bnpc ELSE pc.n
-  /\ UNCHANGED <<now, cfg, st, status, gauge, ncr, curr, prev, epoch, nextSlot, nextMin, busy, busyUntil, ans, waiting, envv, hist>>
+  /\ UNCHANGED <<now, cfg, st, status, gauge, ncr, curr, prev, epoch, nextSlot, nextMin, busy, busyUntil, ans, waiting, envv, ghost>>
 
 \* a validator API request arrives: vapiCallsFunc sends on the channel (and blocks until the goroutine receives)
 VapiCall == /\ waiting' = waiting + 1
-            /\ UNCHANGED <<now, cfg, st, status, gauge, ncr, bnpc, curr, prev, epoch, nextSlot, nextMin, pend, busy, busyUntil, ans, envv, hist>>
+            /\ UNCHANGED <<now, cfg, st, status, gauge, ncr, bnpc, curr, prev, epoch, nextSlot, nextMin, pend, busy, busyUntil, ans, envv, ghost>>
 \* case <-vapiCalls
 RecvVapi == /\ InSelect /\ waiting > 0 /\ waiting' = waiting - 1 /\ curr' = curr + 1 /\ acc' = Append(acc, now)
             /\ UNCHANGED <<now, cfg, st, status, gauge, ncr, bnpc, prev, epoch, nextSlot, nextMin, pend, busy, busyUntil, ans, envv,
@@ -138,12 +138,12 @@ Quiet == /\ st # "init" /\ \A x \in Timers : x > now
          /\ InSelect => (pend = {} /\ waiting = 0)
 Tick(t1) == /\ t1 > now /\ Quiet /\ \A x \in Timers : t1 <= x
             /\ now' = t1
-            /\ UNCHANGED <<cfg, st, status, gauge, ncr, bnpc, curr, prev, epoch, nextSlot, nextMin, pend, busy, busyUntil, ans, waiting, envv, hist>>
+            /\ UNCHANGED <<cfg, st, status, gauge, ncr, bnpc, curr, prev, epoch, nextSlot, nextMin, pend, busy, busyUntil, ans, waiting, envv, ghost>>
 
 \* ---- environment
-SetBN(a) == bn' = a /\ UNCHANGED <<now, cfg, st, status, gauge, ncr, bnpc, curr, prev, epoch, nextSlot, nextMin, pend, busy, busyUntil, ans, waiting, conn, pc, hist>>
-SetPC(p) == pc' = p /\ UNCHANGED <<now, cfg, st, status, gauge, ncr, bnpc, curr, prev, epoch, nextSlot, nextMin, pend, busy, busyUntil, ans, waiting, conn, bn, hist>>
-SetConn(k) == conn' = k /\ UNCHANGED <<now, cfg, st, status, gauge, ncr, bnpc, curr, prev, epoch, nextSlot, nextMin, pend, busy, busyUntil, ans, waiting, bn, pc, hist>>
+SetBN(a) == bn' = a /\ UNCHANGED <<now, cfg, st, status, gauge, ncr, bnpc, curr, prev, epoch, nextSlot, nextMin, pend, busy, busyUntil, ans, waiting, conn, pc, ghost>>
+SetPC(p) == pc' = p /\ UNCHANGED <<now, cfg, st, status, gauge, ncr, bnpc, curr, prev, epoch, nextSlot, nextMin, pend, busy, busyUntil, ans, waiting, conn, bn, ghost>>
+SetConn(k) == conn' = k /\ UNCHANGED <<now, cfg, st, status, gauge, ncr, bnpc, curr, prev, epoch, nextSlot, nextMin, pend, busy, busyUntil, ans, waiting, bn, pc, ghost>>
 
 \* ---- contract
 StatusRule == evals > 0 => status = Rule(evalIn)
